@@ -69,6 +69,17 @@ namespace g
    struct i3 : seq< maximum_rule< std::uint8_t >, opt< one< '.' >, i3 > > {};
    struct i4;
    struct i4 : sor< seq< i4, one< '+' >, unsigned_rule >, unsigned_rule > {};
+   // rule names that contain the delimiters of the compiler's pretty-function text ( ; = ] > , ' ): the analysis keys its
+   // table by the demangled rule name, so two different rules must never share a key; in each grammar the first repetition
+   // is fine and the second one (same text up to the literal) has a nullable body
+   struct n1 : seq< star< opt< one< ';' > >, alpha >, star< opt< one< ';' > > > > {};
+   struct n2 : seq< star< opt< one< ']' > >, alpha >, star< opt< one< ']' > > > > {};
+   struct n3 : seq< star< opt< one< '=' > >, alpha >, star< opt< one< '=' > > > > {};
+   struct n4 : seq< star< opt< one< '>' > >, alpha >, star< opt< one< '>' > > > > {};
+   struct n5 : seq< star< opt< one< ',' > >, alpha >, star< opt< one< ',' > > > > {};
+   struct n6 : seq< star< opt< one< '\'' > >, alpha >, star< opt< one< '\'' > > > > {};
+   struct n7 : seq< star< opt< string< '[', ';', ' ', 's', 't', 'd', ':', ':' > >, alpha >, star< opt< string< '[', ';', ' ', 's', 't', 'd', ':', ':' > > > > {};
+   struct n8 : seq< star< opt< one< ';' > >, alpha >, star< one< ';' > > > {};   // both fine
 }  // namespace g
 
 static std::string hex( const std::string& s )
@@ -151,5 +162,13 @@ int main( int argc, char** argv )
    one_grammar< g::i2 >( 20, "-1a", ml + 1, {} );
    one_grammar< g::i3 >( 21, "12.", ml + 2, {} );
    one_grammar< g::i4 >( 22, "1+", ml + 1, {} );
+   one_grammar< g::n1 >( 23, "a;", ml, {} );
+   one_grammar< g::n2 >( 24, "a]", ml, {} );
+   one_grammar< g::n3 >( 25, "a=", ml, {} );
+   one_grammar< g::n4 >( 26, "a>", ml, {} );
+   one_grammar< g::n5 >( 27, "a,", ml, {} );
+   one_grammar< g::n6 >( 28, "a'", ml, {} );
+   one_grammar< g::n7 >( 29, "a[", ml, { "[; std::a" } );
+   one_grammar< g::n8 >( 30, "a;", ml, {} );
    return 0;
 }
